@@ -7,7 +7,7 @@ S2 == <<"s2", "">>
 Dom == <<"dom", "">>
 Cfg(ns, rsf, tcp, rna, c, lf, to, search, domain, ndots, usd) ==
     [ns |-> ns, rsf |-> rsf, tcp |-> tcp, rna |-> rna, cache |-> c, life |-> lf, tmo |-> to, qtype |-> "A",
-     search |-> search, domain |-> domain, ndots |-> ndots, usd |-> usd]
+     search |-> search, domain |-> domain, ndots |-> ndots, usd |-> usd, glue |-> "scripted"]
 
 (* A: one resolution, no cache: every switch combination, 1-2 (thorough: 1-3) servers, one search
       domain; lifetime 1 s, per-query timeout 1/2 s *)
